@@ -577,12 +577,12 @@ def magnetic_check(c, out, dis, hist, seen):
 def correspondence(ctx):
     import collections
     rng = ctx.rng
-    ngroups = 64 if ctx.thorough else 16
+    ngroups = 64 if ctx.thorough else 10
     groups = [electric_group(rng, i, ctx.thorough) for i in range(ngroups)]
     texts = [(f"c09_e_{i}", electric_text(c)) for i, c in enumerate(groups)]
-    kcases = [kernel_case(rng) for _ in range(16 if ctx.thorough else 6)]
+    kcases = [kernel_case(rng) for _ in range(16 if ctx.thorough else 4)]
     texts += [(f"c09_k_{i}", kernel_text(c)) for i, c in enumerate(kcases)]
-    mgroups = [magnetic_group(rng) for _ in range(24 if ctx.thorough else 8)]
+    mgroups = [magnetic_group(rng) for _ in range(24 if ctx.thorough else 6)]
     texts += [(f"c09_m_{i}", magnetic_text(c)) for i, c in enumerate(mgroups)]
     res = V.coq_eval_many(texts)
     dis, seen = [], set()
